@@ -94,25 +94,48 @@ def plan(tier: str) -> dict:
         "budget_s": 30 if quick else 480,
         "floors": {
             "table_checks": 200,
-            # Safety net only: low enough to be met by a quick run on a machine whose 16 cores are shared
-            # with ~100 other runnable processes (measured: ~2000 groups in the budget), high enough that
-            # a run in which the deciding observations were hardly made is inconclusive.  An idle machine
-            # completes all planned cases (see cases_done in the evidence).
-            "obs_numpy": 800 if quick else 36000,
-            "obs_tobytes": 800 if quick else 36000,
-            "obs_tofile": 6000 if quick else 288000,
-            "obs_onnx_decode": 600 if quick else 30000,
-            "groups_subbyte": 300 if quick else 7000,
-            "groups_external": 150 if quick else 9000,
-            "groups_string": 15 if quick else 250,
+            # "The monitor was reached" floors.  Deliberately low for quick: on this machine the 16 cores
+            # were shared with 100-140 other runnable processes while this was built and a shard then gets
+            # through only a few dozen cases in its 30 s; an idle machine completes all planned cases
+            # (compare cases_done with cases_planned in the evidence).
+            "obs_numpy": 100 if quick else 36000,
+            "obs_tobytes": 100 if quick else 36000,
+            "obs_tofile": 800 if quick else 288000,
+            "obs_onnx_decode": 80 if quick else 30000,
+            "groups_subbyte": 30 if quick else 7000,
+            "groups_external": 20 if quick else 9000,
+            "groups_string": 2 if quick else 250,
         },
-        "min_nontrivial": 3000 if quick else 150000,
+        "min_nontrivial": 400 if quick else 150000,
         "params": {},
     }
 
 
 # ---- case list of this run --------------------------------------------------------------------------
-def _case_list(tier: str, seed: int) -> list:
+def _lanes(cases: list, nshards: int) -> list:
+    """Importing torch costs seconds of CPU (tens of seconds of wall time on an oversubscribed machine),
+    so the cases that need torch are placed only on the first quarter of the shards (case i runs on shard
+    i mod nshards); the other shards never import it."""
+    tl = max(1, nshards // 4)
+    t_cases = [c for c in cases if (c[0] == "grid" and _needs_torch(c[4])) or (c[0] == "random" and _random_is_torch(c[1]))]
+    n_cases = [c for c in cases if not ((c[0] == "grid" and _needs_torch(c[4])) or (c[0] == "random" and _random_is_torch(c[1])))]
+    out, ti, ni = [], 0, 0
+    for p in range(len(cases)):
+        want_t = (p % nshards) < tl
+        if (want_t and ti < len(t_cases)) or ni >= len(n_cases):
+            out.append(t_cases[ti])
+            ti += 1
+        else:
+            out.append(n_cases[ni])
+            ni += 1
+    return out
+
+
+def _case_list(tier: str, seed: int, nshards: int = 16) -> list:
+    return _lanes(_case_list_unplaced(tier, seed), nshards)
+
+
+def _case_list_unplaced(tier: str, seed: int) -> list:
     """All sub-byte grid cases + strings + (thorough: the rest of the grid | quick: a seeded sample of
     it) + random cases.  The two halves are shuffled and interleaved so that a shard stopped by its time
     budget on a loaded machine has still seen a spread of every kind of case."""
@@ -138,7 +161,19 @@ def _case_list(tier: str, seed: int) -> list:
 _DIMS = [0, 1, 1, 2, 2, 3, 3, 4, 5, 7, 8, 9, 16, 17]
 
 
-def _random_case(rng) -> tuple:
+def _needs_torch(rep_name: str) -> bool:
+    return "orch" in rep_name
+
+
+TORCH_REPS = [r for r in R.REP_NAMES if _needs_torch(r)]
+PLAIN_REPS = [r for r in R.REP_NAMES if not _needs_torch(r)]
+
+
+def _random_is_torch(k: int) -> bool:
+    return k % 8 == 0
+
+
+def _random_case(rng, k: int = 1) -> tuple:
     name = rng.choice(SUBBYTE) if rng.random() < 0.4 else rng.choice(O.NUMERIC)
     r = rng.random()
     if r < 0.08:
@@ -152,7 +187,7 @@ def _random_case(rng) -> tuple:
             shape = (rng.randrange(0, 40),)
     sp = O.SPECS[name]
     vc = rng.choice([c for c in O.VCLASSES if O.has_class(sp, c)] + ["mixed", "mixed", "mixed"])
-    return name, shape, vc, rng.choice(R.REP_NAMES)
+    return name, shape, vc, rng.choice(TORCH_REPS if _random_is_torch(k) else PLAIN_REPS)
 
 
 # ---- shrinking and signatures ---------------------------------------------------------------------
@@ -308,7 +343,7 @@ def _report(ctx, shrinker: Shrinker, dtype, shape, vclass, env: Env, rep_name: s
 _KIND_PREFIX = {"f": "float", "bf": "float", "i": "int", "u": "uint", "c": "complex", "b": "bool", "s": "string"}
 
 
-def check_tables(count) -> list[tuple[str, str]]:
+def check_tables(count, with_torch: bool = True) -> list[tuple[str, str]]:
     bad: list[tuple[str, str]] = []
 
     def chk(cond: bool, what: str, name: str, msg: str) -> None:
@@ -363,7 +398,7 @@ def check_tables(count) -> list[tuple[str, str]]:
         # harness self-check of the spec table against ml_dtypes (not a verdict on the library)
         info = ml_dtypes.finfo(sp.np_dtype) if sp.kind == "float" else ml_dtypes.iinfo(sp.np_dtype) if sp.kind in ("int", "uint") else None
         assert info is None or info.bits == sp.bits, (name, info.bits)
-        if sp.torch is not None and hasattr(R.torch(), sp.torch):
+        if with_torch and sp.torch is not None and hasattr(R.torch(), sp.torch):
             tdt = getattr(R.torch(), sp.torch)
             chk(get(lambda: tensor_adapters.to_torch_dtype(m)) == tdt, "torch-dtype", name, f"to_torch_dtype({name}) = {get(lambda: tensor_adapters.to_torch_dtype(m))!r}")
             chk(get(lambda: tensor_adapters.from_torch_dtype(tdt)) == m, "torch-dtype-inverse", name, f"from_torch_dtype({tdt}) = {get(lambda: tensor_adapters.from_torch_dtype(tdt))!r}")
@@ -441,17 +476,17 @@ def run(ctx) -> None:
     for key, n in _grid()["static_na"].items():
         if ctx.shard == 0:
             ctx.count("not_applicable_static:" + key.split(":", 1)[1], n)
-    for sig, msg in check_tables(ctx.count):
+    for sig, msg in check_tables(ctx.count, with_torch=False):
         ctx.violation(sig, msg, {"kind": "table", "signature": sig})
     ctx.evaluation("element-type tables", nontrivial=True)
-    cases = _case_list(ctx.tier, ctx.seed)
+    cases = _case_list(ctx.tier, ctx.seed, ctx.nshards)
     shrinker = Shrinker(os.environ["VF_SHARD_TMP"], counts)
     assert ctx.total_cases <= len(cases), (len(cases), ctx.total_cases)
     for case in ctx.case_ids():
         c = cases[case]
         if c[0] == "random":
             rng = ctx.rng(c[1], "random")
-            dtype, shape, vclass, rep_name = _random_case(rng)
+            dtype, shape, vclass, rep_name = _random_case(rng, c[1])
             _run_numeric(ctx, shrinker, counts, dtype, shape, vclass, rep_name, rng, "random")
         elif c[0] == "grid":
             _, dtype, shape, vclass, rep_name = c
@@ -460,6 +495,11 @@ def run(ctx) -> None:
         else:
             _, rep, shape, vclass = c
             _run_string(ctx, counts, rep, shape, vclass, ctx.rng(f"{shape}/{vclass}", "string"))
+    if R._torch is not None:      # this shard ran torch cases: check the adapter's dtype table too
+        for sig, msg in check_tables(lambda k, n=1: None, with_torch=True):
+            if sig.startswith("table:torch"):
+                ctx.violation(sig, msg, {"kind": "table", "signature": sig})
+        ctx.count("table_checks_torch")
     grid_done = not ctx.truncated_by_time and ctx.total_cases == len(cases) and len(ctx.violations) < ctx.MAX_VIOLATIONS
     for k, v in counts.items():
         ctx.count(k, v)
